@@ -313,7 +313,9 @@ def tier_precedence(n: NT):
             alts.append(Alt(syms, a.action, a.fallible, a.cond, [], None, None, a.tag))
         if prev is not None:
             alts.append(Alt([Nt(prev)]))
-        out.append(NT(lname(l), alts, n.pub, n.inline, list(n.params), n.ty, []))
+        # only the original name is a start symbol of the specification (what LALRPOP does with the
+        # helper levels' visibility is its own business)
+        out.append(NT(lname(l), alts, n.pub and l == top, n.inline, list(n.params), n.ty, []))
     return out
 
 
@@ -391,7 +393,7 @@ def _cond_holds(cond, env):
     raise ValueError(op)
 
 
-ERROR_TERM = "!"
+ERROR_TERM = "\x00error"
 
 
 def to_cfg(g: Grammar, feats=frozenset(), error_as_terminal=True):
